@@ -194,7 +194,8 @@ def known_signature(case: Any, v: Violation):
 
 VICTIM_SVCS = [
     {'type': TYPES[0], 'name': 'vic0.' + TYPES[0], 'port': 80, 'server': 'victim.local.', 'addrs': ['10.0.0.1'], 'props': ''},
-    {'type': TYPES[1], 'name': 'vic1.' + TYPES[1], 'port': 81, 'server': 'victim.local.', 'addrs': ['10.0.0.1'], 'props': '00'},
+    # (shares the host name of vic0 but lists one address more: each service's own address records have to be withdrawn at close)
+    {'type': TYPES[1], 'name': 'vic1.' + TYPES[1], 'port': 81, 'server': 'victim.local.', 'addrs': ['10.0.0.1', 'fe80::1'], 'props': '00'},
     {'type': TYPES[0], 'name': 'vic2.' + TYPES[0], 'port': 82, 'server': 'victim-b.local.', 'addrs': ['10.0.0.1', 'fe80::1'], 'props': ''},
 ]
 PEER_SVC = {'type': TYPES[0], 'name': 'peer0.' + TYPES[0], 'port': 90, 'server': 'peer.local.', 'addrs': ['10.0.0.2'], 'props': ''}
@@ -512,9 +513,13 @@ def check(case: Dict[str, Any]) -> Dict[str, Any]:
     # closed - otherwise the service stays alive in every cache on the link although its instance is gone
     last_word: Dict[Any, Tuple[int, float]] = {}
     vic_idents = set()
-    for d in VICTIM_SVCS:
+    for k_, d in enumerate(VICTIM_SVCS):
         s = rp.Svc(d)
-        vic_idents |= {s.ptr(), s.srv(), s.txt()} | set(s.addresses())
+        vic_idents |= {s.ptr(), s.srv(), s.txt()}
+        if k_ not in ex.unregistered:
+            # (a service unregistered on its own while a sibling kept the host name alive leaves its address records to the
+            # sibling - C08's rule; the addresses of a service that was still registered at the close are the close's to withdraw)
+            vic_idents |= set(s.addresses())
     for e in trace:
         if e['host'] != 'X' or e['dst'] != sim.MDNS4:
             continue
